@@ -1,4 +1,4 @@
-import Pcore.Proofs.Object
+import Pcore.Proofs.ObjectDefine
 /-!
 # C17 — Object types: constructors, init-hash, equality and inheritance cohere
 
@@ -12,8 +12,9 @@ All theorems are about the executable model `Pcore.Model.Object` (tied to the co
 unbounded: ANY type `t : OType` (any number of levels, attributes, any equality / serialization lists) satisfying the layout
 invariant `WF t`, any value list.  `WF t` (names of the positional attributes distinct, every position from the required
 count on optional, no given_or_derived attribute with a declared value) is what `InitFromHash` establishes:
-`C17_wf_noSerialization` proves it for EVERY type without a `serialization` list whose attribute names are distinct and
-whose attributes came out of `mkAttr`, `C17_wf_define` lifts that to every definition accepted by `define`.
+`C17_wf_define` proves it for EVERY definition accepted by `define` over an environment of accepted definitions,
+`C17_wf_env` for every type of every accepted list of definitions (any inheritance depth), given only the shape the
+driver's universe guarantees (`DefShape`: own attribute names distinct, no repeated name in `serialization`).
 
 Full statement / proved / missing
 * `C17_get`            — proved: `get (newPos t vs) a = vs[pos a]` or, beyond the given values, the default
@@ -24,21 +25,90 @@ Full statement / proved / missing
 * `C17_inithash`       — proved: `newNamed t (initHash o)` succeeds, is `equals` to `o`, same value at every position.
 * `C17_equality`       — proved for objects whose types are the same whenever `Equals` calls them equal (a name identifies a
                          type within a loader): `equals o o' = true ↔ tyEq ∧ ∀ a ∈ eqAttrNames t, get o a = get o' a`;
-                         `equals` never faults (`C17_equals_total`).
+                         `equals` never faults (`C17_equals_total`).  `eqAttrNames` = the equality lists declared through the
+                         chain that have a position (after the fixes: a derived / unlisted attribute is skipped, an explicitly
+                         empty list is a declaration), or every positional attribute when none is declared.
                          FULL statement `C17_equality_full` (with `equality_include_type => false` the types need not be
                          equal) is FALSE of model and code: `C17_include_type_ignored` (known finding
                          C17-equality-include-type).
 * `C17_subtype`        — proved: an ancestor (any non-empty suffix of the level list) accepts every instance;
                          `C17_subtype_strict`: a type never accepts an instance of a proper ancestor.
-* `C17_schema_partial` — proved: a definition whose attributes are individually well-formed (`AttrOK`), whose names do not
-                         clash with inherited ones and that declares neither `equality` nor `serialization` is accepted by
-                         `define`.  FULL statement `C17_schema_full` (with equality and serialization lists) is stated, not
-                         proved: missing is the induction through `checkEquality`/`checkSerialization`; that part is covered
-                         by the correspondence run only (predicate class `schema-admitted-rejected`).
-* missing: the text parser / `TypeObjectInitHash` Struct instance test (C05/C02 territory), `override => true`, functions,
-  type parameters, Go-reflected objects (`reflectedObject`).
+* `C17_schema`         — proved at model level: every `WellFormedDef` (attributes well-formed on their own and not clashing
+                         with an inherited member, equality names non-constant attributes not already in an inherited
+                         equality, serialization names positional attributes with required never after optional) is accepted
+                         by `define`.  Missing: that the parsed text / init-hash of such a definition is an instance of the
+                         Struct `TypeObjectInitHash` — the Struct instance test and the parser are not part of this model
+                         (C02 / C05 territory); checked by the correspondence run only (predicate class
+                         `schema-admitted-rejected`, which reads the declared schema member by member).
+* missing altogether: `override => true`, functions, type parameters, annotations, Go-reflected objects
+  (`reflectedObject`), a `serialization` list with a repeated name (accepted by the code, the named constructor then indexes
+  out of range — outside the universe).
 -/
 namespace Pcore.Object
+
+/-! ### what `InitFromHash` establishes: every accepted definition satisfies the layout invariant -/
+
+/-- the part of a definition's shape the universe of the driver guarantees: own attribute names distinct (a hash literal),
+    no repeated name in `serialization` -/
+structure DefShape (d : Def) : Prop where
+  names : (d.attrs.map (·.name)).Nodup
+  ser : ∀ ser, d.serialization = some ser → ser.Nodup
+
+theorem C17_wf_define {env : List OType} {d : Def} {t : OType} (henv : ∀ t' ∈ env, TypeOK t') (hd : DefShape d)
+    (h : define env d = .ok t) : TypeOK t ∧ WF t :=
+  define_wf henv hd.names hd.ser h
+
+/-- any number of definitions, any inheritance depth: every type of the resulting environment is well laid out -/
+theorem C17_wf_env {env0 env : List OType} {ds : List Def} (h0 : ∀ t ∈ env0, TypeOK t ∧ WF t)
+    (hds : ∀ d ∈ ds, DefShape d) (h : defineAll env0 ds = .ok env) : ∀ t ∈ env, TypeOK t ∧ WF t := by
+  induction ds generalizing env0 with
+  | nil => simp [defineAll] at h; subst h; exact h0
+  | cons d ds ih =>
+    unfold defineAll at h
+    cases hd : define env0 d with
+    | error c => simp [hd] at h
+    | ok t =>
+      simp only [hd] at h
+      have ht := C17_wf_define (fun t' ht' => (h0 t' ht').1) (hds d (by simp)) hd
+      apply ih (env0 := env0 ++ [t]) _ (fun d' hd' => hds d' (by simp [hd'])) h
+      intro t' ht'
+      simp only [List.mem_append, List.mem_singleton] at ht'
+      rcases ht' with ht' | ht'
+      · exact h0 t' ht'
+      · subst ht'; exact ht
+
+theorem C17_wf_noSerialization {l : Level} {p : OType} (hok : TypeOK (l :: p)) (hs : l.serialization = none) :
+    WF (l :: p) := wf_noSerialization hok hs
+
+/-! ### every definition the declared schema admits is accepted -/
+
+/-- a well-formed definition, in the model's terms: attributes well-formed on their own and not clashing with an
+    inherited member; equality names are (own or inherited) attributes that are not constants and not already part of
+    an inherited equality; serialization names are attributes with a position, required never after optional -/
+structure WellFormedDef (env : List OType) (d : Def) : Prop where
+  attrs : ∀ a ∈ d.attrs, AttrDeclOK a
+  fresh : ∀ a ∈ d.attrs, findAttr (parentOf env d) a.name = none
+  equality : ∀ as, defineAttrs (parentOf env d) d.attrs = .ok as → ∀ n ∈ d.equality.toList?.getD [],
+    ∃ a, lookupMember as (parentOf env d) n = some a ∧ a.kind ≠ .constant ∧ n ∉ equalityAttributes (parentOf env d)
+  serialization : ∀ as, defineAttrs (parentOf env d) d.attrs = .ok as → ∀ ser, d.serialization = some ser →
+    (∀ n ∈ ser, ∃ a, lookupMember as (parentOf env d) n = some a ∧ a.settable = true) ∧
+      SerSorted as (parentOf env d) ser
+
+/-- model-level statement of "every definition the schema admits is accepted".  Missing (not modelled): that the parsed
+    text / init-hash of such a definition is an instance of the Struct `TypeObjectInitHash` (checked by the
+    correspondence run, predicate class `schema-admitted-rejected`). -/
+theorem C17_schema {env : List OType} {d : Def} (h : WellFormedDef env d) : ∃ t, define env d = .ok t := by
+  obtain ⟨as, has⟩ := defineAttrs_succeeds h.attrs h.fresh
+  have heq := checkEquality_succeeds (h.equality as has)
+  have hser : checkSerialization as (parentOf env d) false (d.serialization.getD []) = .ok () := by
+    rcases Option.eq_none_or_eq_some d.serialization with hs | ⟨ser, hs⟩
+    · simp [hs, checkSerialization]
+    · obtain ⟨h1, h2⟩ := h.serialization as has ser hs
+      rw [hs]
+      exact checkSerialization_succeeds h1 (fun hb => by cases hb) h2
+  unfold define
+  simp only [has, heq, hser]
+  exact ⟨_, rfl⟩
 
 /-! ### each attribute reads back the value given or its default -/
 
@@ -314,5 +384,88 @@ theorem C17_subtype_strict {p t : OType} (h : p <:+ t) (hne : p ≠ t) (o : Obj)
     have hl := isAssignable_length hc
     have hle := h.length_le
     exact hne (h.eq_of_length (by omega))
+
+/-! ### non-vacuity: a three-level chain with a constant, an Optional attribute, a given_or_derived attribute, a default,
+    a declared equality and a serialization order meets every hypothesis used above -/
+
+def sampleDefs : List Def := [
+  { parent := none,
+    attrs := [{ name := "a", ty := .int, kind := .normal, dflt := none },
+              { name := "k", ty := .int, kind := .constant, dflt := some (.int 7) }],
+    equality := .many ["a"], includeType := none, serialization := none },
+  { parent := some 0,
+    attrs := [{ name := "b", ty := .opt .str, kind := .normal, dflt := none },
+              { name := "g", ty := .int, kind := .givenOrDerived, dflt := none }],
+    equality := .absent, includeType := some false, serialization := none },
+  { parent := some 1,
+    attrs := [{ name := "c", ty := .bool, kind := .reference, dflt := some (.bool true) }],
+    equality := .one "c", includeType := none, serialization := some ["a", "c", "b", "g"] }]
+
+def sampleEnv : List OType :=
+  match defineAll [] sampleDefs with
+  | .ok env => env
+  | .error _ => []
+
+def sampleT0 : OType := (sampleEnv[0]?).getD []
+def sampleT2 : OType := (sampleEnv[2]?).getD []
+
+example : defineAll [] sampleDefs = .ok sampleEnv := rfl
+example : sampleEnv.length = 3 ∧ sampleT2.length = 3 := ⟨rfl, rfl⟩
+example : (posAttrs sampleT2).map (·.name) = ["a", "c", "b", "g"] ∧ requiredCount sampleT2 = 1 := ⟨rfl, rfl⟩
+
+theorem sampleShape : ∀ d ∈ sampleDefs, DefShape d := by
+  intro d hd
+  simp only [sampleDefs, List.mem_cons, List.not_mem_nil, or_false] at hd
+  rcases hd with rfl | rfl | rfl
+  · exact ⟨by decide, by intro ser h; cases h⟩
+  · exact ⟨by decide, by intro ser h; cases h⟩
+  · exact ⟨by decide, by intro ser h; cases h; decide⟩
+
+theorem sampleWF : WF sampleT2 :=
+  (C17_wf_env (env0 := []) (by simp) sampleShape (rfl : defineAll [] sampleDefs = .ok sampleEnv) sampleT2
+    (by decide)).2
+
+/-- hypotheses of `C17_get` / `C17_pos_named` hold; the conclusions, instantiated: an omitted trailing attribute reads back
+    its default, a given_or_derived one `undef`, the constant its value -/
+example : newPos sampleT2 [.int 1] = .ok { typ := sampleT2, values := [.int 1] } := rfl
+example : get { typ := sampleT2, values := [.int 1] } "c" = .ok (some (.bool true)) :=
+  C17_get (i := 1) sampleWF (rfl : newPos sampleT2 [.int 1] = .ok _) rfl
+example : get { typ := sampleT2, values := [.int 1] } "g" = .ok (some .undef) :=
+  C17_get (i := 3) sampleWF (rfl : newPos sampleT2 [.int 1] = .ok _) rfl
+example : get { typ := sampleT2, values := [.int 1] } "k" = .ok (some (.int 7)) := rfl
+example : ∃ o', newNamed sampleT2 [("a", .int 1)] (.hash "") = .ok o' ∧
+    equals { typ := sampleT2, values := [.int 1] } o' = .ok true := by
+  obtain ⟨o', h1, _, h2, _⟩ := C17_pos_named (.hash "") sampleWF (rfl : newPos sampleT2 [.int 1] = .ok _)
+  exact ⟨o', h1, h2⟩
+/-- hypotheses of `C17_inithash` / `C17_equality`: an object with a default-valued and a non-default trailing value -/
+example : Valid { typ := sampleT2, values := [.int 1, .bool true, .str "x"] } := ⟨by decide, rfl⟩
+example : initHash { typ := sampleT2, values := [.int 1, .bool true, .str "x"] } = [("a", .int 1), ("b", .str "x")] := rfl
+example : eqAttrNames sampleT2 = ["c", "a"] := rfl
+/-- hypotheses of `C17_subtype` / `C17_subtype_strict`: the grand-parent is a proper ancestor -/
+example : sampleT0 ≠ [] ∧ sampleT0 <:+ sampleT2 ∧ sampleT0 ≠ sampleT2 :=
+  ⟨by decide, ⟨sampleT2.take 2, rfl⟩, by decide⟩
+example : isInstance sampleT0 { typ := sampleT2, values := [.int 1] } = true ∧
+    isInstance sampleT2 { typ := sampleT0, values := [.int 1] } = false := ⟨rfl, rfl⟩
+/-- hypotheses of `C17_schema`: the first sample definition is well-formed in the model's terms -/
+example : WellFormedDef [] (sampleDefs.headD default) := by
+  refine ⟨?_, ?_, ?_, ?_⟩
+  · intro a ha
+    simp only [sampleDefs, List.headD_cons, List.mem_cons, List.not_mem_nil, or_false] at ha
+    rcases ha with rfl | rfl <;> simp [AttrDeclOK, inst]
+  · intro a _; rfl
+  · intro as has n hn
+    have : as = [{ name := "a", ty := .int, kind := .normal, value := none },
+                 { name := "k", ty := .int, kind := .constant, value := some (.int 7) }] := by
+      have h' : defineAttrs (parentOf [] (sampleDefs.headD default)) (sampleDefs.headD default).attrs = .ok
+          [{ name := "a", ty := .int, kind := .normal, value := none },
+           { name := "k", ty := .int, kind := .constant, value := some (.int 7) }] := rfl
+      rw [h'] at has; exact (Except.ok.inj has).symm
+    subst this
+    simp only [sampleDefs, List.headD_cons, EqDecl.toList?, Option.getD_some, List.mem_cons, List.not_mem_nil,
+      or_false] at hn
+    subst hn
+    exact ⟨_, rfl, by decide, by simp [parentOf, sampleDefs, equalityAttributes]⟩
+  · intro as _ ser hs
+    simp [sampleDefs] at hs
 
 end Pcore.Object
